@@ -55,9 +55,13 @@ def use_query(draw, schema: Schema, must_use=None, allow_missing=False):
     """(query text, uses, absent) over the schema's collections"""
     colls = list(schema.colls)
     n = draw(st.integers(1, 3))
-    picks = [draw(st.sampled_from(colls)) for _ in range(n)]
+    picks = [draw(st.sampled_from(colls[:2] + colls)) for _ in range(n)]
     if must_use is not None and must_use not in picks:
-        picks[0] = must_use
+        picks[draw(st.integers(0, len(picks) - 1))] = must_use
+    if must_use is not None and draw(st.integers(0, 2)) == 0:
+        # a built-in collection first, the declared one after it (they may share headers but not libraries)
+        picks = [colls[0], must_use]
+        n = 2
     if n >= 2 and draw(st.integers(0, 3)) == 0:
         picks[1] = picks[0]  # the same collection twice
     uses = []
@@ -168,8 +172,12 @@ def declared_schema(draw, backend):
     singleton = backend == "atlas" and draw(st.sampled_from([False, True, False]))
     tname = draw(st.sampled_from(["myns::K0", "myns::K0"]))
     cont = "myns::K0" if singleton else draw(st.sampled_from(["myns::K0Container", "myns::K0Vec"]))
-    headers = tuple(draw(st.lists(st.sampled_from(["myns/K0Container.h", "myns/K0.h", "myns/extra.h"]), min_size=1, max_size=2, unique=True)))
-    libs = tuple(draw(st.lists(st.sampled_from(["MyNsLib", "OtherLib"]), max_size=2, unique=True))) if backend == "atlas" else ()
+    builtin_header = [c for c in base.colls if not c.singleton][0].headers[0]
+    # the declaration may name exactly the header a built-in collection already asks for (and still need its own libraries)
+    headers = draw(st.sampled_from([(builtin_header,), None, None]))
+    if headers is None:
+        headers = tuple(draw(st.lists(st.sampled_from(["myns/K0Container.h", "myns/K0.h", "myns/extra.h", builtin_header]), min_size=1, max_size=2, unique=True)))
+    libs = tuple(draw(st.lists(st.sampled_from(["MyNsLib", "OtherLib"]), min_size=0 if draw(st.integers(0, 3)) == 0 else 1, max_size=2, unique=True))) if backend == "atlas" else ()
     if backend == "atlas":
         elem_ptr, declared_ptr = True, None
     else:
@@ -323,7 +331,7 @@ def run(ctx: Ctx):
     for be in BACKENDS:
         cxx.std_model(be)
     shards = 15
-    payloads = [(derive_seed(ctx.seed, "C06", i), ctx.n(8, 160), ctx.n(20, 400), ctx.n(2, 6), ctx.n(3, 12), ctx.deadline, BACKENDS[i % 3]) for i in range(shards)]
+    payloads = [(derive_seed(ctx.seed, "C06", i), ctx.n(8, 160), ctx.n(20, 400), ctx.n(2, 6), ctx.n(5, 12), ctx.deadline, BACKENDS[i % 3]) for i in range(shards)]
     for st_ in run_shards("vf.props.C06", "worker", payloads):
         ctx.stats.merge(st_)
 
